@@ -5,6 +5,7 @@
 -/
 import PotasscoVerif.Props.C02
 import PotasscoVerif.Lemmas.AspTrans
+import PotasscoVerif.Spec.AspCalls
 namespace PotasscoVerif.C02
 open PotasscoVerif PotasscoVerif.Convert PotasscoVerif.Asp
 
@@ -159,13 +160,7 @@ theorem mapHeadAtoms_dom (c : CS) (hi : Inv (abs c)) (h acc : List Nat) : ∀ a 
 theorem mapHead_dom (c : CS) (hi : Inv (abs c)) (h : List Nat) : ∀ a ∈ h, a ∈ domOf (c.mapHead h).1 :=
   mapHeadAtoms_dom c hi h []
 
-/-! ### the rules in a call list -/
-def inRule : Call → Option Rule
-  | .rule ht h b => some ⟨ht != 0, h, .normal b⟩
-  | .sumRule ht h bnd b => some ⟨ht != 0, h, .sum bnd b⟩
-  | _ => none
-
-def rulesOf (cs : List Call) : List Rule := cs.filterMap inRule
+/-! ### the rules in a call list (`inRule`, `rulesOf`: Spec/AspCalls.lean) -/
 
 theorem rulesOf_append (a b : List Call) : rulesOf (a ++ b) = rulesOf a ++ rulesOf b := by simp [rulesOf]
 
